@@ -464,6 +464,83 @@ class CFG:
         return out
 
 
+def expr_of(fn, op_or_local, depth=40, within=None):
+    """Expression tree of a value through single-definition temporaries:
+    ('param', n) | ('const', value, cdef) | ('bin', op, a, b) | ('un', op, a) | ('field', base, name) |
+    ('call', name, [args]) | ('agg', adt, variant, {field: expr}) | ('ref', e) | ('unknown', why)."""
+    c = fn.cfg
+
+    def place_expr(p, d):
+        if d <= 0:
+            return ("unknown", "depth")
+        base = local_expr(p[0], d)
+        for e in p[1:]:
+            if e == "*":
+                if base[0] == "ref":
+                    base = base[1]
+                else:
+                    base = ("deref", base)
+            elif isinstance(e, dict) and "f" in e:
+                if base[0] == "agg" and e["f"] in base[3]:
+                    base = base[3][e["f"]]
+                elif base[0] == "tuple" and e["f"].isdigit() and int(e["f"]) < len(base[1]):
+                    base = base[1][int(e["f"])]
+                else:
+                    base = ("field", base, e["f"])
+            elif isinstance(e, dict) and "d" in e:
+                base = ("as", base, e["d"])
+            else:
+                base = ("proj", base, str(e))
+        return base
+
+    def op_expr(op, d):
+        p = op_place(op)
+        if p is not None:
+            return place_expr(p, d)
+        if "fn" in op:
+            return ("fnitem", op.get("rp") or op.get("p"))
+        return ("const", op.get("v", op.get("c")), op.get("cdef"))
+
+    def local_expr(l, d):
+        argc = fn.r.get("argc", 0)
+        df = c.single_def(l, within)
+        if df is None:
+            if 1 <= l <= argc:
+                return ("param", l)
+            return ("unknown", "local _%d has %s definitions" % (l, "no" if not c.defs.get(l) else "several"))
+        if df[0] == "call":
+            t = df[2]
+            return ("call", t.get("rp") or t.get("p"), [op_expr(a, d - 1) for a in t["args"]])
+        if df[0] != "assign":
+            return ("unknown", df[0])
+        rv = df[3]["rv"]
+        r = rv["r"]
+        if r in ("use", "cast"):
+            return op_expr(rv["op"], d - 1)
+        if r == "ref":
+            return ("ref", place_expr(rv["place"], d - 1))
+        if r == "bin":
+            op = rv["op"]
+            if op.endswith("WithOverflow"):
+                return ("tuple", [("bin", op[:-12], op_expr(rv["a"], d - 1), op_expr(rv["b"], d - 1)), ("const", False, None)])
+            return ("bin", op, op_expr(rv["a"], d - 1), op_expr(rv["b"], d - 1))
+        if r == "un":
+            return ("un", rv["op"], op_expr(rv["a"], d - 1))
+        if r == "agg":
+            if rv.get("adt"):
+                return ("agg", rv["adt"], rv["variant"], {f: op_expr(o, d - 1) for f, o in zip(rv["fields"], rv["ops"])})
+            if rv.get("tuple"):
+                return ("tuple", [op_expr(o, d - 1) for o in rv["ops"]])
+            return ("unknown", "aggregate")
+        if r == "discr":
+            return ("discr", place_expr(rv["place"], d - 1))
+        return ("unknown", r)
+
+    if isinstance(op_or_local, int):
+        return local_expr(op_or_local, depth)
+    return op_expr(op_or_local, depth)
+
+
 TRANSPARENT_SUBSTR = (
     "Clone>::clone", "::clone", "as_ref", "as_mut", "::unwrap", "::expect", "Try>::branch", "Try::branch",
     "::into", "From>::from", "::from", "Deref>::deref", "::deref", "::borrow", "to_owned", "::as_str",
